@@ -154,6 +154,7 @@ type RunCfg struct {
 	Policy       int  `json:"policy"`
 	SwitchPct    int  `json:"switch_pct"`
 	PCTDepth     int  `json:"pct_depth"`
+	PCTSpan      int  `json:"pct_span,omitempty"`
 	PoolFreshPct int  `json:"pool_fresh_pct"`
 	PoolAnyPct   int  `json:"pool_any_pct"`
 	PoolDropPct  int  `json:"pool_drop_pct"`
